@@ -4,7 +4,7 @@ Model of the result-model validators of QCElemental (C20).  Core Lean only.
 Sources followed (line numbers of /repo at commit 2c95a77, i.e. after the five C20 `fix:` commits):
   * qcelemental/models/results.py:263-305   `_validate_poles` (all six dipoles + quadrupole), `_validate_derivs`
   * qcelemental/models/results.py:449-514   `_assert1d`, `_assert2d_nao_x`, `_assert2d` (incl. coulomb/exchange), `_assert_exists`
-  * qcelemental/models/results.py:659-668   `_validate_return_result`
+  * qcelemental/models/results.py:659-668   `_validate_return_result` (hessian: `v.reshape(nsq, nsq)` since /repo 5bfcfbf)
   * qcelemental/models/results.py:670-779   `_wavefunction_protocol`, `_stdout_protocol`, `_native_file_protocol` (always=True)
   * qcelemental/models/procedures.py:128-153 `_trajectory_protocol`
   * qcelemental/models/basis.py:45-74,181-231  shell validators, `nfunctions`, `_check_atom_map`, `_check_nbf`, `_calculate_nbf`
@@ -48,7 +48,7 @@ def isqrtAux (n : Nat) : Nat → Nat
 /-- `int(v.size ** 0.5)` (exact integer square root; the float computation agrees for sizes < 2^52) -/
 def isqrt (n : Nat) : Nat := isqrtAux n n
 
-/-- `nsq = int(v.size**0.5); v.shape = (nsq, nsq)` -/
+/-- `nsq = int(v.size**0.5); v = v.reshape(nsq, nsq)` -/
 def reshapeSquare (s : Shape) : Option Shape :=
   let r := isqrt (prod s)
   if r * r = prod s then some [r, r] else none
@@ -318,16 +318,16 @@ def wfnProtocol {β : Type} (p : WfnProto) (w : Wfn β) : Except Err (Option (Wf
 
 inductive ArrRule where
   | square      -- `_assert2d`       : (nbf, nbf)
-  | rows        -- `_assert2d_nao_x` : (nbf, -1)
+  | rows        -- `_assert2d_nao_x` : (nbf, -1)   (scf_orbitals, localized_orbitals)
   | flat        -- `_assert1d`       : (-1,)
   | unvalidated -- no validator registered
   deriving Repr, DecidableEq
 
 def arrRule : ArrBase → ArrRule
   | .h_core | .h_effective | .scf_density | .scf_fock | .scf_coulomb | .scf_exchange => .square
-  | .scf_orbitals => .rows
+  | .scf_orbitals | .localized_orbitals => .rows     -- localized_orbitals: since /repo ddb6df6
   | .scf_eigenvalues | .scf_occupations => .flat
-  | .localized_orbitals | .localized_fock => .unvalidated
+  | .localized_fock => .unvalidated
 
 /-- `nbf = none`: `values.get("basis")` is None ("Do not raise multiple errors": pass through) -/
 def applyArrRule (nbf : Option Nat) (r : ArrRule) (s : Shape) : Option Shape :=
